@@ -147,3 +147,64 @@ proof fn lemma_rel_trans(a: Map<u32, Bookmark>, b: Map<u32, Bookmark>, c: Map<u3
         lemma_stable_eff(a, b, k);
     }
 }
+
+// ----- the outer walk (`first` mode): every bookmark below the list ends up with the page it stands for -----
+/// all_fixed(t0, tf, lb, list, n): for each of the first n members of `list` (each a bookmark of t0 with an id above lb), its page
+/// in tf is eff_page on t0, and the same holds for its children, and theirs. list_in_table: the list names bookmarks of the table.
+pub open spec fn list_in_table(t: Map<u32, Bookmark>, list: Seq<u32>) -> bool { forall|i: int| 0 <= i < list.len() ==> t.contains_key(#[trigger] list[i]) }
+pub open spec fn all_fixed(t0: Map<u32, Bookmark>, tf: Map<u32, Bookmark>, lb: int, list: Seq<u32>, n: int) -> bool
+    decreases M - lb - 1, n
+{
+    if n <= 0 || n > list.len() || lb < -1 || lb >= M { true }
+    else {
+        let id = list[n - 1];
+        all_fixed(t0, tf, lb, list, n - 1)
+        && (t0.contains_key(id) && id > lb ==>
+            tf[id].page == eff_page(t0, id) && all_fixed(t0, tf, id as int, t0[id].children@, t0[id].children@.len() as int))
+    }
+}
+pub open spec fn keeps(t0: Map<u32, Bookmark>, tf: Map<u32, Bookmark>, tg: Map<u32, Bookmark>) -> bool {
+    forall|k: u32| #[trigger] t0.contains_key(k) && tf[k].page == eff_page(t0, k) ==> tg[k].page == eff_page(t0, k)
+}
+proof fn lemma_keeps(t0: Map<u32, Bookmark>, tf: Map<u32, Bookmark>, tg: Map<u32, Bookmark>)
+    requires rel(t0, tf), rel(tf, tg) ensures keeps(t0, tf, tg)
+{
+    assert forall|k: u32| #[trigger] t0.contains_key(k) && tf[k].page == eff_page(t0, k) implies tg[k].page == eff_page(t0, k) by {
+        assert(tf.contains_key(k));
+        lemma_stable_eff(t0, tf, k);
+    }
+}
+proof fn lemma_mono(t0: Map<u32, Bookmark>, tf: Map<u32, Bookmark>, tg: Map<u32, Bookmark>, lb: int, list: Seq<u32>, n: int)
+    requires keeps(t0, tf, tg), all_fixed(t0, tf, lb, list, n) ensures all_fixed(t0, tg, lb, list, n) decreases M - lb - 1, n
+{
+    if n <= 0 || n > list.len() || lb < -1 || lb >= M { }
+    else {
+        let id = list[n - 1];
+        lemma_mono(t0, tf, tg, lb, list, n - 1);
+        if t0.contains_key(id) && id > lb {
+            lemma_mono(t0, tf, tg, id as int, t0[id].children@, t0[id].children@.len() as int);
+        }
+    }
+}
+proof fn lemma_base(t0: Map<u32, Bookmark>, t1: Map<u32, Bookmark>, tf: Map<u32, Bookmark>, lb: int, list: Seq<u32>, n: int)
+    requires rel(t0, t1) ensures all_fixed(t1, tf, lb, list, n) == all_fixed(t0, tf, lb, list, n) decreases M - lb - 1, n
+{
+    if n <= 0 || n > list.len() || lb < -1 || lb >= M { }
+    else {
+        let id = list[n - 1];
+        lemma_base(t0, t1, tf, lb, list, n - 1);
+        if t0.contains_key(id) {
+            assert(t1.contains_key(id));
+            if id > lb {
+                lemma_stable_eff(t0, t1, id);
+                lemma_base(t0, t1, tf, id as int, t0[id].children@, t0[id].children@.len() as int);
+            }
+        } else { assert(!t1.contains_key(id)); }
+    }
+}
+proof fn lemma_lb_fixed(t0: Map<u32, Bookmark>, tf: Map<u32, Bookmark>, lb1: int, lb2: int, list: Seq<u32>, n: int)
+    requires all_above(list, lb1), all_above(list, lb2), -1 <= lb1 < M, -1 <= lb2 < M
+    ensures all_fixed(t0, tf, lb1, list, n) == all_fixed(t0, tf, lb2, list, n) decreases n
+{
+    if 0 < n <= list.len() { lemma_lb_fixed(t0, tf, lb1, lb2, list, n - 1); }
+}
